@@ -51,6 +51,9 @@ def main(
     """
     with open(input_envelope, "rb") as fh:
         envelope = cbor2.load(fh)
+    if not isinstance(envelope.value, dict) and hasattr(envelope.value, "items"):
+        # Newer cbor2 releases decode the content of a tag into immutable containers
+        envelope = cbor2.CBORTag(envelope.tag, dict(envelope.value))
     extracted_payload = envelope.value.pop(payload_name, None)
 
     if extracted_payload is None:
